@@ -299,19 +299,52 @@ def addMutationInfo {α : Type} (allow : Bool) (full : List String) (r : RankRes
     | some (it, a, noise) =>
       .ok ⟨r.method ++ "+RRT1+" ++ a ++ "_" ++ toString it, alts, values, ⟨some it, some a, some noise, missing⟩⟩
 
-/-! ## `unique_names` -/
+/-! ## `unique_names`
 
-def unamesLoop : List String → List (String × Nat) → List String → List String
+As the code is now (after `fix: unique_names keeps suffixing until the generated name is free`); the
+loop before that fix took the generated name as it was (`uniqueNames_v0`).  Here the candidates are
+`Original` and `M.<alternative>`, every `M.` name as often as `repeat`: the suffixing loop never has to
+run twice (validated by the correspondence check), so both versions agree on them. -/
+
+/-- `f"{name}_{count}"` -/
+def sfx (n : String) (c : Nat) : String := n ++ "_" ++ toString c
+
+/-- `{k: v for k, v in Counter(names).items() if v > 1}` read with `List.lookup` -/
+def nameCount (names : List String) : List (String × Nat) :=
+  (names.map fun n => (n, names.count n)).filter fun kv => decide (1 < kv.2)
+
+/-- `used = {k for k, v in counter.items() if v == 1}` -/
+def usedInit (names : List String) : List String := names.filter fun n => names.count n == 1
+
+/-- `while name in used: name = f"{name}_{count}"` (`used.length + 1` rounds always suffice: every
+round makes a longer name) -/
+def freshen (used : List String) (c : Nat) : Nat → String → String
+  | 0, x => x
+  | fuel + 1, x => if used.contains x then freshen used c fuel (sfx x c) else x
+
+/-- the loop of `unique_names` over the reversed names -/
+def unamesLoop : List String → List (String × Nat) → List String → List String → List String
+  | [], _, _, acc => acc
+  | n :: rest, tbl, used, acc =>
+    match tbl.lookup n with
+    | some (c + 1) =>
+      let x := freshen used (c + 1) (used.length + 1) (sfx n (c + 1))
+      unamesLoop rest ((n, c) :: tbl) (x :: used) (x :: acc)
+    | _ => unamesLoop rest tbl used (n :: acc)
+
+def uniqueNames (names : List String) : List String :=
+  unamesLoop names.reverse (nameCount names) (usedInit names) []
+
+/-- before the fix: the generated name is taken as it is -/
+def unamesLoop_v0 : List String → List (String × Nat) → List String → List String
   | [], _, acc => acc
   | n :: rest, tbl, acc =>
     match tbl.lookup n with
-    | some c => if c = 0 then unamesLoop rest tbl (n :: acc)
-                else unamesLoop rest ((n, c - 1) :: tbl.filter (·.1 != n)) ((n ++ "_" ++ toString c) :: acc)
-    | none => unamesLoop rest tbl (n :: acc)
+    | some (c + 1) => unamesLoop_v0 rest ((n, c) :: tbl) (sfx n (c + 1) :: acc)
+    | _ => unamesLoop_v0 rest tbl (n :: acc)
 
-def uniqueNames (names : List String) : List String :=
-  let tbl := (names.eraseDups.map fun n => (n, names.count n)).filter (·.2 > 1)
-  unamesLoop names.reverse tbl []
+def uniqueNames_v0 (names : List String) : List String :=
+  unamesLoop_v0 names.reverse (nameCount names) []
 
 /-! ## `evaluate` -/
 
